@@ -79,11 +79,22 @@ func NewModules() *Modules {
 // e.g., foo.yang is named foo).  An error is returned if the file is not
 // found or there was an error parsing the file.
 func (ms *Modules) Read(name string) error {
+	// findFile adds the directory of the file to Path.  If the file is
+	// then rejected the search path is put back as it was: a failed load
+	// leaves nothing behind.
+	npath := len(ms.Path)
 	name, data, err := ms.findFile(name)
 	if err != nil {
 		return err
 	}
-	return ms.Parse(data, name)
+	if err := ms.Parse(data, name); err != nil {
+		for _, p := range ms.Path[npath:] {
+			delete(ms.pathMap, p)
+		}
+		ms.Path = ms.Path[:npath]
+		return err
+	}
+	return nil
 }
 
 // Parse parses data as YANG source and adds it to ms.  The name should reflect
